@@ -17,7 +17,7 @@ MIN_OUTCOMES = 10
 
 CONTAINERS = ("list", "tuple", "ndarray", "series", "series_shift", "series_perm", "series_str")
 OUTPUTS = ("triplets", "coo_matrix", "ndarray")
-MODES = ("lev", "hamming", "halflev")
+MODES = ("lev", "hamming", "halflev", "mixedlev")
 SELF_ENG = ("nearest_neighbor", "symdel", "hash_based", "kdtree")
 TWO_ENG = ("symdel2", "nn2", "SymdelDB", "LookupDB")
 
@@ -50,8 +50,15 @@ def halflev(a, b):
     return ref_lev(a, b) * 0.3
 
 
+def mixedlev(a, b):
+    # a Python int for some pairs, a float for others
+    from mc.refmodel import ref_lev
+    d = ref_lev(a, b)
+    return d if d <= 1 else d * 0.75
+
+
 def _cd(mode):
-    return "hamming" if mode == "hamming" else (halflev if mode == "halflev" else None)
+    return "hamming" if mode == "hamming" else (halflev if mode == "halflev" else (mixedlev if mode == "mixedlev" else None))
 
 
 def expected_for(seqs, k, mode, queries=None):
@@ -59,6 +66,9 @@ def expected_for(seqs, k, mode, queries=None):
     if mode == "halflev":
         base = neighbors_within(list(seqs), k, queries=None if queries is None else list(queries))
         return {(q, r, d * 0.3) for q, r, d in base}
+    if mode == "mixedlev":
+        base = neighbors_within(list(seqs), k, queries=None if queries is None else list(queries))
+        return {(q, r, d if d <= 1 else d * 0.75) for q, r, d in base}
     return neighbors_within(list(seqs), k, queries=None if queries is None else list(queries), dist=mode)
 
 
@@ -218,7 +228,7 @@ def check_case(case, acc):
                     if eng == "hash_based" and k > 1:
                         continue
                     for out in OUTPUTS:
-                        for cont in (CONTAINERS if mode != "halflev" else ("list", "ndarray", "series_perm", "series_shift")):
+                        for cont in (CONTAINERS if mode in ("lev", "hamming") else (("list", "ndarray", "series_perm", "series_shift") if mode == "halflev" else ("list",))):
                             _one_self(acc, eng, seqs, k, mode, out, cont, expected)
     elif kind == "maxret":
         # kdtree with max_returns gives an asymmetric neighbour list: matrix outputs must hold d at [r, q] of exactly the triplets
@@ -258,7 +268,7 @@ def check_case(case, acc):
                 expected = expected_for(ref, k, mode, query)
                 for eng in TWO_ENG:
                     for out in OUTPUTS:
-                        for cr, cq in (combos if mode != "halflev" else combos[:1] + combos[3:6] + combos[-1:]):
+                        for cr, cq in (combos if mode in ("lev", "hamming") else (combos[:1] + combos[3:6] + combos[-1:] if mode == "halflev" else combos[:1])):
                             _one_two(acc, eng, ref, query, k, mode, out, cr, cq, expected)
     elif kind == "wide":
         _, ref, query = case
@@ -283,14 +293,21 @@ def check_case(case, acc):
         import pyrepseq
         acc.cls("invalid-argument")
         boxed = box(seqs, cont) if cont != "ndarray" or all(isinstance(s, str) for s in seqs) else __import__("numpy").array(list(seqs), dtype=object)
-        if eng == "symdel2":
-            res = acc.call(pyrepseq.symdel, boxed, k, seqs2=["A", "C"], **kw)
-        else:
-            res = acc.call(getattr(pyrepseq, eng), boxed, k, **kw)
-        if raised(res):
-            acc.ok((eng, name, res.type))
-        else:
-            acc.fail("%s/invalid-argument-accepted/%s" % (eng, name), case, "an exception", digest(res) if not hasattr(res, "shape") else "matrix %s" % (res.shape,))
+        for hm in (False, True):
+            kw2 = dict(kw)
+            if hm:
+                if "custom_distance" in kw2:
+                    continue
+                kw2["custom_distance"] = "hamming"       # the same invalid argument in Hamming mode
+            if eng == "symdel2":
+                res = acc.call(pyrepseq.symdel, boxed, k, seqs2=["A", "C"], **kw2)
+            else:
+                res = acc.call(getattr(pyrepseq, eng), boxed, k, **kw2)
+            if raised(res):
+                acc.ok((eng, name, res.type, hm))
+            else:
+                acc.fail("%s/invalid-argument-accepted/%s%s" % (eng, name, "/hamming-mode" if hm else ""), case, "an exception", digest(res) if not hasattr(res, "shape") else "matrix %s" % (res.shape,))
+                return
     elif kind == "invalid2":
         _, eng, cont = case
         import pyrepseq
